@@ -7,7 +7,8 @@ open IV IV.Proto IV.ClientState
   init  has0 has1  id reg0 unreg0 reg1 unreg1  ext0 ext1 ext2 ext3  denied(loc names, comma separated, `-` none)   → state
   read|new  entry-point  rhsm|~  fresh   → res TAB state
   fetch rhsm|~ fresh | connunreg | handleunreg 0|1 | regcheck 1|0|~ rhsm|~ fresh   → res TAB state
-  reg | unreg date|~ | delreg | delunreg                               → res TAB state
+  reg | unreg date|~ | rc412 date|~ | delreg | delunreg                               → res TAB state
+  lregcheck api rhsm|~ fresh | lhandlereg api 0|1 rhsm|~ fresh fresh2 | lhandleunreg api force delOk rhsm|~ fresh fresh2  (api: R | U | N | D<date>)   → res TAB state
   canon s                           → canonical form or `E`
 node fields: `A` absent, `D` directory, `F<str>` file, `L<k>` symlink to ext k
 -/
@@ -59,6 +60,15 @@ def decRegen (f : String) : Option Regen :=
 def decTri (f : String) : Option (Option Bool) :=
   if f = "~" then some none else (decBool f).map some
 
+/-- answer of the legacy API: R registered, U unreachable, N not yet registered, D<date> unregistered at -/
+def decApi (f : String) : Option Api :=
+  match f.toList with
+  | ['R'] => some .registered
+  | ['U'] => some .unreachable
+  | ['N'] => some .notYet
+  | 'D' :: r => (decStr (String.ofList r)).map .unregAt
+  | _ => none
+
 abbrev St := Option (Env × FS)
 
 def apply (s : St) (op : Option Op) : St × String :=
@@ -88,6 +98,14 @@ def handle (s : St) (fs : List String) : St × String :=
   | ["connunreg"] => apply s (some .connUnregister)
   | ["handleunreg", b] => apply s (do let b ← decBool b; pure (.handleUnregistration b))
   | ["regcheck", h, r, f] => apply s (do let h ← decTri h; let r ← decOpt r; let f ← decStr f; pure (.registrationCheck h r f))
+  | ["lregcheck", a, r, f] => apply s (do let a ← decApi a; let r ← decOpt r; let f ← decStr f; pure (.legacyRegistrationCheck a r f))
+  | ["lhandlereg", a, b, r, f, f2] =>
+    apply s (do let a ← decApi a; let b ← decBool b; let r ← decOpt r; let f ← decStr f; let f2 ← decStr f2
+                pure (.legacyHandleRegistration a b r f f2))
+  | ["lhandleunreg", a, b, c, r, f, f2] =>
+    apply s (do let a ← decApi a; let b ← decBool b; let c ← decBool c; let r ← decOpt r; let f ← decStr f; let f2 ← decStr f2
+                pure (.legacyHandleUnregistration a b c r f f2))
+  | ["rc412", d] => apply s (do let d ← decOpt d; pure (.rc412 d))
   | ["reg"] => apply s (some .register)
   | ["unreg", d] => apply s (do let d ← decOpt d; pure (.unregister d))
   | ["delreg"] => apply s (some .deleteRegistered)
